@@ -487,10 +487,9 @@ func seekToRangeStart(data io.Seeker, ra *ByteRange, size int64) error {
 			if ra.To != nil {
 				return fmt.Errorf("invalid range: negative start without a nil end")
 			}
-			start = size + ra.From
-			if start < 0 {
-				return fmt.Errorf("invalid range: negative start bigger than the file size")
-			}
+			// RFC 7233, Section 2.1: a suffix longer than the representation
+			// selects the entire representation.
+			start = max(size+ra.From, 0)
 		} else {
 			start = ra.From
 		}
